@@ -76,3 +76,26 @@ func VerifLogSpan(r *Reader) (present bool, start, end uint64, hdr int) {
 	}
 	return o.Present, o.Offset, end, headerSize(r.version)
 }
+
+// VerifBlockStarts lists the file offsets of the data blocks of every section and of each
+// section's top index block of a (valid) table, as the reader itself finds them.
+func VerifBlockStarts(r *Reader) []uint64 {
+	var out []uint64
+	for _, typ := range []byte{blockTypeRef, blockTypeObj, blockTypeLog} {
+		if !r.offsets[typ].Present {
+			continue
+		}
+		ti, err := r.start(typ, false)
+		for n := 0; err == nil && ti != nil && n < 10000; n++ {
+			out = append(out, ti.blockOff)
+			ok, e := ti.nextBlock()
+			if e != nil || !ok {
+				break
+			}
+		}
+		if io := r.offsets[typ].IndexOffset; io > 0 {
+			out = append(out, io)
+		}
+	}
+	return out
+}
